@@ -65,17 +65,21 @@ func (f *cliFake) record(method string, args any) error {
 	return nil
 }
 
-func (f *cliFake) Deploy(a server.DeployArgs, r *bool) error   { return f.record("Deploy", a) }
-func (f *cliFake) Pause(a server.PauseArgs, r *bool) error     { return f.record("Pause", a) }
-func (f *cliFake) Stop(a server.StopArgs, r *bool) error       { return f.record("Stop", a) }
-func (f *cliFake) Resume(a server.ResumeArgs, r *bool) error   { return f.record("Resume", a) }
-func (f *cliFake) Remove(a server.RemoveArgs, r *bool) error   { return f.record("Remove", a) }
-func (f *cliFake) List(a bool, r *server.ListResponse) error   { return f.record("List", a) }
+func (f *cliFake) Deploy(a server.DeployArgs, r *bool) error { return f.record("Deploy", a) }
+func (f *cliFake) Pause(a server.PauseArgs, r *bool) error   { return f.record("Pause", a) }
+func (f *cliFake) Stop(a server.StopArgs, r *bool) error     { return f.record("Stop", a) }
+func (f *cliFake) Resume(a server.ResumeArgs, r *bool) error { return f.record("Resume", a) }
+func (f *cliFake) Remove(a server.RemoveArgs, r *bool) error { return f.record("Remove", a) }
+func (f *cliFake) List(a bool, r *server.ListResponse) error { return f.record("List", a) }
 func (f *cliFake) RolloutDeploy(a server.RolloutDeployArgs, r *bool) error {
 	return f.record("RolloutDeploy", a)
 }
-func (f *cliFake) RolloutSet(a server.RolloutSetArgs, r *bool) error   { return f.record("RolloutSet", a) }
-func (f *cliFake) RolloutStop(a server.RolloutStopArgs, r *bool) error { return f.record("RolloutStop", a) }
+func (f *cliFake) RolloutSet(a server.RolloutSetArgs, r *bool) error {
+	return f.record("RolloutSet", a)
+}
+func (f *cliFake) RolloutStop(a server.RolloutStopArgs, r *bool) error {
+	return f.record("RolloutStop", a)
+}
 
 var (
 	cliOnce sync.Once
@@ -144,12 +148,23 @@ var cliFlagTable = map[string]map[string]cliFlagSpec{
 		"log-request-header":    {"slice", "TargetOptions.LogRequestHeaders"},
 		"log-response-header":   {"slice", "TargetOptions.LogResponseHeaders"},
 		"forward-headers":       {"bool", "TargetOptions.ForwardHeaders"},
+		"tls":                   {"bool", "ServiceOptions.TLSEnabled"},
+		"tls-staging":           {"staging", "ServiceOptions.ACMEDirectory"},
+		"tls-certificate-path":  {"string", "ServiceOptions.TLSCertificatePath"},
+		"tls-private-key-path":  {"string", "ServiceOptions.TLSPrivateKeyPath"},
 	},
 	"pause":          {"drain-timeout": {"duration", "DrainTimeout"}, "max-pause": {"duration", "PauseTimeout"}},
 	"stop":           {"drain-timeout": {"duration", "DrainTimeout"}, "message": {"string", "Message"}},
 	"rollout-deploy": {"target": {"slice", "TargetURLs"}, "deploy-timeout": {"duration", "DeployTimeout"}, "drain-timeout": {"duration", "DrainTimeout"}},
 	"rollout-set":    {"percent": {"int", "Percentage"}, "list": {"slice", "Allowlist"}},
 	"resume":         {}, "remove": {}, "rollout-stop": {}, "list": {},
+}
+
+// cliDependents: fields a flag is documented to influence besides its own (TLS turns header forwarding off by
+// default and names the certificate cache; the staging flag only matters with TLS).
+var cliDependents = map[string][]string{
+	"tls":         {"ServiceOptions.ACMECachePath", "ServiceOptions.ACMEDirectory", "TargetOptions.ForwardHeaders"},
+	"tls-staging": {"ServiceOptions.ACMEDirectory"},
 }
 
 var cliMethod = map[string]string{"deploy": "Deploy", "pause": "Pause", "stop": "Stop", "resume": "Resume", "remove": "Remove",
@@ -164,10 +179,14 @@ func cliGenValue(t *rapid.T, kind, flag string) string {
 			return fmt.Sprint(rapid.IntRange(0, 100).Draw(t, "pct"))
 		}
 		return fmt.Sprint(rapid.SampledFrom([]int{1, 512, 4096, 1048576, 10485760, 77}).Draw(t, "int"))
-	case "bool":
+	case "bool", "staging":
 		return rapid.SampledFrom([]string{"true", "false"}).Draw(t, "bool")
 	case "string":
 		switch flag {
+		case "tls-certificate-path":
+			return "/etc/ssl/site.pem"
+		case "tls-private-key-path":
+			return "/etc/ssl/site.key"
 		case "health-check-path":
 			return rapid.SampledFrom([]string{"/up", "/healthz", "/status/ready"}).Draw(t, "path")
 		case "message":
@@ -202,7 +221,7 @@ var cliFocus = map[string]struct{ cmds, flags []string }{
 	"C13": {[]string{"deploy"}, []string{"forward-headers", "strip-path-prefix", "path-prefix", "host"}},
 	"C14": {[]string{"deploy"}, []string{"buffer-requests", "buffer-responses", "buffer-memory", "max-request-body", "max-response-body"}},
 	"C15": {[]string{"deploy"}, []string{"target-timeout", "error-pages"}},
-	"C16": {[]string{"deploy"}, []string{"tls-redirect", "host", "path-prefix"}},
+	"C16": {[]string{"deploy"}, []string{"tls-redirect", "host", "path-prefix", "tls", "tls-staging", "tls-certificate-path"}},
 	"C17": {[]string{"deploy", "rollout-deploy", "pause", "stop"}, []string{"deploy-timeout", "drain-timeout"}},
 	"C19": {[]string{"deploy"}, []string{"log-request-header", "log-response-header"}},
 }
@@ -254,6 +273,10 @@ func cliGenFocus(t *rapid.T, id string) cliPlan {
 			add("buffer-requests")
 		case "max-response-body":
 			add("buffer-responses")
+		case "tls-certificate-path":
+			add("tls-private-key-path")
+		case "tls-private-key-path":
+			add("tls-certificate-path")
 		}
 		add(n)
 	}
@@ -266,14 +289,35 @@ func cliGenFocus(t *rapid.T, id string) cliPlan {
 				add("buffer-requests") // the CLI refuses the limit without the flag being given
 			case "max-response-body":
 				add("buffer-responses")
+			case "tls-certificate-path":
+				add("tls-private-key-path") // the two are required together
+			case "tls-private-key-path":
+				add("tls-certificate-path")
 			}
 			add(n)
+		}
+	}
+	tlsOn := false
+	for i, f := range p.Flags {
+		if f.Name == "tls" && f.Value == "true" {
+			tlsOn = true
+			_ = i
+		}
+	}
+	if tlsOn {
+		// the CLI accepts --tls only with a host and for a service that includes the root path
+		add("host")
+		for i, f := range p.Flags {
+			if f.Name == "path-prefix" && !strings.Contains(","+f.Value+",", ",/,") && !strings.Contains(","+f.Value+",", ",/api/,/,") {
+				p.Flags[i].Value = f.Value + ",/"
+			}
 		}
 	}
 	// the metamorphic partner drops one optional flag (not one another flag depends on)
 	var droppable []int
 	for i, f := range p.Flags {
-		if f.Name == "target" || p.Cmd == "rollout-set" && len(p.Flags) == 1 || f.Name == "buffer-requests" && set["max-request-body"] || f.Name == "buffer-responses" && set["max-response-body"] {
+		if f.Name == "target" || p.Cmd == "rollout-set" && len(p.Flags) == 1 || strings.HasPrefix(f.Name, "tls-certificate") || strings.HasPrefix(f.Name, "tls-private") ||
+			tlsOn && (f.Name == "host" || f.Name == "path-prefix") || f.Name == "buffer-requests" && set["max-request-body"] || f.Name == "buffer-responses" && set["max-response-body"] {
 			continue
 		}
 		droppable = append(droppable, i)
@@ -282,6 +326,15 @@ func cliGenFocus(t *rapid.T, id string) cliPlan {
 		p.Drop = rapid.SampledFrom(droppable).Draw(t, "drop")
 	}
 	return p
+}
+
+func (p cliPlan) flag(name string) string {
+	for _, f := range p.Flags {
+		if f.Name == name {
+			return f.Value
+		}
+	}
+	return ""
 }
 
 func (p cliPlan) argv(skip int) []string {
@@ -300,7 +353,7 @@ func (p cliPlan) argv(skip int) []string {
 		}
 		spec := cliFlagTable[p.Cmd][f.Name]
 		switch {
-		case spec.kind == "bool":
+		case spec.kind == "bool" || spec.kind == "staging":
 			a = append(a, "--"+f.Name+"="+f.Value)
 		case (spec.kind == "slice" || spec.kind == "prefixes") && i%2 == 1:
 			for _, v := range strings.Split(f.Value, ",") { // repeated flag instead of a comma-separated value
@@ -418,7 +471,14 @@ func cliRun(t *testing.T, p cliPlan) (res vfResult) {
 			res.Excluded = "argument struct has no field " + spec.field + " (layout changed; inconclusive)"
 			return
 		}
-		if want := cliWant(spec, f.Value); fmt.Sprint(got) != want {
+		want := cliWant(spec, f.Value)
+		if spec.kind == "staging" {
+			want = ""
+			if f.Value == "true" && p.flag("tls") == "true" {
+				want = server.ACMEStagingDirectoryURL // the staging directory is only named when TLS is on
+			}
+		}
+		if fmt.Sprint(got) != want {
 			res.failf("cli-flag:"+p.Cmd+":"+f.Name, "%s: --%s %s must arrive as %s=%s, the proxy was sent %v", desc, f.Name, f.Value, spec.field, want, got)
 			return
 		}
@@ -438,6 +498,13 @@ func cliRun(t *testing.T, p cliPlan) (res vfResult) {
 		own := cliFlagTable[p.Cmd][dropped.Name].field
 		for k, v := range a {
 			if k == own || b[k] == v {
+				continue
+			}
+			dependent := false
+			for _, d := range cliDependents[dropped.Name] {
+				dependent = dependent || d == k
+			}
+			if dependent {
 				continue
 			}
 			res.failf("cli-crosstalk:"+p.Cmd+":"+dropped.Name, "%s: giving --%s also changed %s (%s with it, %s without)", desc, dropped.Name, k, v, b[k])
